@@ -690,7 +690,7 @@ func (rw *rewriter) apply() {
 						case rw.on["gosched"] && pn.Imported().Path() == "runtime" && s.Sel.Name == "Gosched":
 							call.Fun = sel(rw.need("vruntime", "vruntime"), "Gosched")
 							rw.count["gosched"]++
-						case rw.on["chans"] && pn.Imported().Path() == "time" && s.Sel.Name == "After":
+						case rw.on["chans"] && !rw.on["time"] && pn.Imported().Path() == "time" && s.Sel.Name == "After":
 							call.Fun = sel(rw.need("vtime", "vtime"), "After")
 							rw.count["time.After"]++
 						}
@@ -810,6 +810,9 @@ func (rw *rewriter) fixImports() {
 	}
 	if rw.on["sync"] {
 		swap["sync"] = shimBase + "vsync"
+	}
+	if rw.on["time"] {
+		swap["time"] = shimBase + "vtime"
 	}
 	for _, im := range f.Imports {
 		p, _ := strconv.Unquote(im.Path.Value)
